@@ -19,7 +19,8 @@ from .c33 import check_owner_consistency
 from .common import enclosing, enclosing_all, fctx, in_body, is_name, method_calls, stmts
 from ..sem import Sem
 from .interlace import doubled_from, stride_stores
-from .spin import chain_parts, channel_of_name, stride2_slots
+from ..sem import reachable_helpers
+from .spin import chain_parts, channel_of_name, stride2_slots, stride_offset
 
 LEVEL = "other"
 EXPLANATION = (
@@ -224,49 +225,66 @@ def run(ctx) -> None:
         check_owner_consistency(ctx, r1, f, want_slots=True)
 
     # ---------------------------------------------------------------- R25.2
-    r2 = ctx.rule("R25.2", "interlace convention: even ↔ up ↔ 0, odd ↔ down ↔ 1, on both axes", min_instances=14)
+    r2 = ctx.rule("R25.2", "interlace convention: even ↔ up ↔ 0, odd ↔ down ↔ 1, on both axes", min_instances=8)
     # (a) System_R.double_spin / Rvectors.double_spin
     double_spin_rule(ctx, r2)
-    # (b) SystemSOC.set_soc_axis: block (a,b) ↔ pauli_rotated[a,b]
-    f = idx.function(SOCS, "SystemSOC.set_soc_axis")
-    pm = fctx(f)[2]
-    for s in stmts(f.node):
-        if not (isinstance(s, ast.Assign) and isinstance(s.targets[0], ast.Subscript)
-                and norm(s.targets[0].value) in ("soc_R_W", "SS_R_W")):
-            continue
-        tg = s.targets[0]
-        slots = stride2_slots(tg)
-        if not slots:
-            # rng / rng + 1 index form
+    # (b) SystemSOC.set_soc_axis (and the private helpers it calls): block (a,b) ↔ pauli_rotated[a,b]
+    f0 = idx.function(SOCS, "SystemSOC.set_soc_axis")
+    n_soc = 0
+    for f in [f0] + reachable_helpers(idx, f0):
+        pm = fctx(f)[2]
+        for s in stmts(f.node):
+            if not (isinstance(s, ast.Assign) and isinstance(s.targets[0], ast.Subscript)):
+                continue
+            pauli = [n for n in ast.walk(s.value) if isinstance(n, ast.Subscript) and isinstance(n.value, ast.Name) and "pauli" in n.value.id.lower()]
+            if not pauli:
+                continue
+            tg = s.targets[0]
             elts = tg.slice.elts if isinstance(tg.slice, ast.Tuple) else [tg.slice]
             slots = []
             for e in elts:
-                te = norm(e).replace(" ", "")
-                if te == "rng":
-                    slots.append(0)
-                elif te == "rng+1":
-                    slots.append(1)
-        if len(slots) != 2:
-            continue
-        r2.instance(f"{f.short}: {norm1(s, 80)}")
-        pidx = None
-        for n in ast.walk(s.value):
-            if isinstance(n, ast.Subscript) and norm(n.value) == "pauli_rotated":
-                ints = [e.value for e in (n.slice.elts if isinstance(n.slice, ast.Tuple) else [n.slice])
-                        if isinstance(e, ast.Constant) and isinstance(e.value, int)]
-                pidx = ints[:2]
-        r2.check(pidx == list(slots), f"block {slots} ↔ pauli_rotated{pidx}", f, s,
-                 f"the spin block with offsets {slots} is filled with pauli_rotated{pidx}: the SOC/spin matrix element is placed "
-                 f"in the wrong spin block")
-        keys = re.findall(r"dV_soc_wann_(\d)_(\d)", norm(s.value))
-        g = _guarded(pm, s)
-        two_spin = any(isinstance(p, ast.If) and "nspin == 2" in norm(p.test) and in_body(p.body, s) for p in enclosing_all(pm, s, ast.If))
-        if keys and two_spin:
-            r2.check([int(x) for x in keys[0]] == list(slots), f"block {slots} uses dV_soc_wann_{keys[0][0]}_{keys[0][1]}", f, s,
-                     f"block {slots} is built from dV_soc_wann_{keys[0][0]}_{keys[0][1]}")
-        if slots == [1, 0] and two_spin and norm(tg.value) == "soc_R_W":
-            r2.check("conj_XX_R" in norm(s.value), "the (down, up) block is the conjugate of the (up, down) block", f, s,
-                     "the (1,0) block is not built from conj_XX_R of the (0,1) block: Ham_SOC is not Hermitian")
+                o = stride_offset(e)
+                if o is not None:
+                    slots.append(str(o))
+                    continue
+                # `rng` / `rng + a` index form: offset a relative to the even positions
+                if isinstance(e, ast.Name) and e.id == "rng":
+                    slots.append("0")
+                elif isinstance(e, ast.BinOp) and isinstance(e.op, ast.Add) and isinstance(e.left, ast.Name) and e.left.id == "rng":
+                    slots.append(norm(e.right))
+            if len(slots) != 2:
+                continue
+            n_soc += 1
+            r2.instance(f"{f.short}: {norm1(s, 80)}")
+            pe = pauli[0].slice.elts if isinstance(pauli[0].slice, ast.Tuple) else [pauli[0].slice]
+            pidx = [norm(e) for e in pe if not (isinstance(e, ast.Constant) and e.value is None) and not isinstance(e, ast.Slice)][:2]
+            r2.check(pidx == slots, f"block {slots} ↔ pauli_rotated{pidx}", f, s,
+                     f"the spin block with offsets {slots} is filled with pauli_rotated{pidx}: the SOC/spin matrix element is placed "
+                     f"in the wrong spin block")
+            keys = re.findall(r"dV_soc_wann_(\d)_(\d)", norm(s.value))
+            two_spin = any(isinstance(p, ast.If) and "nspin == 2" in norm(p.test) and in_body(p.body, s) for p in enclosing_all(pm, s, ast.If))
+            if keys and two_spin:
+                r2.check(list(keys[0]) == slots, f"block {slots} uses dV_soc_wann_{keys[0][0]}_{keys[0][1]}", f, s,
+                         f"block {slots} is built from dV_soc_wann_{keys[0][0]}_{keys[0][1]}")
+            if slots == ["1", "0"] and two_spin and "soc" in norm(tg.value).lower() and "SS" not in norm(tg.value):
+                r2.check("conj_XX_R" in norm(s.value), "the (down, up) block is the conjugate of the (up, down) block", f, s,
+                         "the (1,0) block is not built from conj_XX_R of the (0,1) block: Ham_SOC is not Hermitian")
+        # a spin-block table {(s1, s2): matrix}: key ↔ dV_soc_wann_s1_s2, (1,0) is the conjugate of (0,1)
+        for s in stmts(f.node):
+            if isinstance(s, ast.Assign) and isinstance(s.targets[0], ast.Subscript) and isinstance(s.targets[0].slice, ast.Tuple) \
+                    and all(isinstance(e, ast.Constant) and e.value in (0, 1) for e in s.targets[0].slice.elts) and len(s.targets[0].slice.elts) == 2:
+                key = [str(e.value) for e in s.targets[0].slice.elts]
+                S_ = Sem(idx, f)
+                vt = S_.rnorm(s.value, S_.cfg.node(s))
+                kk = re.findall(r"dV_soc_wann_(\d)_(\d)", vt)
+                two_spin = any(isinstance(p, ast.If) and "nspin == 2" in norm(p.test) and in_body(p.body, s) for p in enclosing_all(pm, s, ast.If))
+                if kk and two_spin:
+                    n_soc += 1
+                    r2.instance(f"{f.short}: {norm1(s, 80)}")
+                    want = key if key != ["1", "0"] else ["0", "1"]
+                    r2.check(list(kk[0]) == want and (key != ["1", "0"] or "conj_XX_R" in vt), f"spin block {key} ← dV_soc_wann_{kk[0][0]}_{kk[0][1]}", f, s,
+                             f"spin block {key} of the SOC table is built from dV_soc_wann_{kk[0][0]}_{kk[0][1]}" + ("" if key != ["1", "0"] else " without conj_XX_R"))
+    r2.expect(n_soc >= 3, f"SOC / spin block stores located ({n_soc})", f0, f0.node, "set_soc_axis: the stores of the Pauli-matrix blocks were not found")
     # (c) Data_K_soc / get_system_R: channel ↔ slot
     for rel, q in ((DKS, "Data_K_soc.HH_K"), (SOCS, "SystemSOC.get_system_R"), (SOCS, "SystemSOC.__init__"), (SOCS, "SystemSOC.symmetrize2")):
         f = idx.function(rel, q)
@@ -294,11 +312,20 @@ def run(ctx) -> None:
     if len(mr) != 1 or not mr[0].args or not isinstance(mr[0].args[0], ast.List):
         raise AnalysisError("get_system_R: merge_Rvectors([...]) call not found")
     mst = enclosing(pm, mr[0], ast.stmt)
+    GS3 = Sem(idx, f)
     if not (isinstance(mst, ast.Assign) and isinstance(mst.targets[0], ast.Tuple) and len(mst.targets[0].elts) == 2
-            and all(isinstance(e, ast.Name) for e in mst.targets[0].elts) and mst.value is mr[0]):
+            and isinstance(mst.targets[0].elts[0], ast.Name) and mst.value is mr[0]):
         raise AnalysisError("get_system_R: `merged, maps = merge_Rvectors([...])` form not recognised")
-    maplist = mst.targets[0].elts[1].id
-    order = [norm(e) for e in mr[0].args[0].elts]
+    direct_pos: Dict[str, int] = {}
+    t1 = mst.targets[0].elts[1]
+    if isinstance(t1, ast.Name):
+        maplist = t1.id
+    elif isinstance(t1, (ast.Tuple, ast.List)) and all(isinstance(e, ast.Name) for e in t1.elts):
+        maplist = "<unpacked>"
+        direct_pos = {e.id: j for j, e in enumerate(t1.elts)}
+    else:
+        raise AnalysisError("get_system_R: `merged, maps = merge_Rvectors([...])` form not recognised")
+    order = [GS3.rnorm(e, cfg.node(mst)) for e in mr[0].args[0].elts]
     want_owner = {"self.rvec": "soc", "self.system_up.rvec": "up", "self.system_down.rvec": "down"}
     pos = {want_owner.get(o): i for i, o in enumerate(order)}
     r3.expect(set(pos) == {"soc", "up", "down"}, f"merge_Rvectors inputs {order} are the SOC, up and down R-vector sets", f, mst,
@@ -317,6 +344,8 @@ def run(ctx) -> None:
             d = du.single_def(e.id, at)
             if d is None or d.value is None:
                 return None
+            if e.id in direct_pos and d.stmt is mst:
+                return direct_pos[e.id]
             if d.kind == "unpack":
                 v = du.resolve_local(d.value, d.node)
                 if isinstance(v, ast.Name) and v.id == maplist:
@@ -336,7 +365,7 @@ def run(ctx) -> None:
             continue
         owners = set()
         for c in gets:
-            recv = norm(c.func.value)
+            recv = GS3.rnorm(c.func.value, cfg.node(s))
             owners.add("up" if recv == "self.system_up" else "down" if recv == "self.system_down" else "soc" if recv == "self" else recv)
         r3.instance(f"{f.short}: {norm1(s, 80)}")
         if len(owners) != 1 or next(iter(owners)) not in pos:
@@ -363,7 +392,8 @@ def run(ctx) -> None:
               f"block stores found per owner: {seen_owner}", f, f.node,
               f"get_system_R: expected block stores for up, down and soc (Ham_SOC, SS); found {seen_owner}")
     t = norm(f.node)
-    r3.check("system_R.wannier_centers_cart = self.wannier_centers_cart.copy()" in t and "system_R.rvec = rvectors_merged" in t,
+    merged_name = mst.targets[0].elts[0].id
+    r3.check("system_R.wannier_centers_cart = self.wannier_centers_cart.copy()" in t and f"system_R.rvec = {merged_name}" in t,
              "the plain system gets the merged R-vectors and the interlaced centres", f, f.node,
              "get_system_R no longer transfers centres / merged R-vectors", stmt="centres+rvec")
 
